@@ -23,6 +23,10 @@ func (d SystemDate) String() string {
 }
 
 func (d SystemDate) MarshalUT0311L0x() ([]byte, error) {
+	if d.IsZero() {
+		return []byte{0x00, 0x00, 0x00}, nil
+	}
+
 	encoded, err := bcd.Encode(time.Time(d).Format("060102"))
 
 	if err != nil {
